@@ -23,6 +23,7 @@ EXPLANATION = (
     "T: if len < width then all words fit on one line, first-fit returns one line and reassembly (C01.R1) drops only the last "
     "word's spaces, i.e. the trimmed paragraph. U (not decided statically): the optimal-fit half - that one line is the "
     "optimum under default penalties - is a numeric argument on paper."
+    " (R5) every producer of fragment boundaries (ASCII-space and Unicode separators, hyphen splitter, break_apart) scans with skip_ansi_escape_sequence, so that no boundary falls inside an escape sequence and the widths of the fragments of a paragraph add up to its display width; the two producers that do not (hyphen splitter, ASCII-space separator) are genuine findings on the pinned tree, recorded in KNOWN_FINDINGS.txt with the failing inputs."
 )
 ASSUMPTIONS = ["A-rustc", "A-uw / C10.R4: display width <= byte length"]
 LEVEL_TEXT = (
@@ -165,6 +166,58 @@ def _fill(prog, rep):
              "fill_slow_path is called with %s" % [[D(x) for x in f[1]] for f in fw])
 
 
+# Producers of fragment boundaries: functions that decide at which byte offsets a paragraph is cut into fragments
+# whose widths are then measured separately with display_width.  (Custom separators / splitters: A-custom.)
+BOUNDARY_PRODUCERS = [
+    ("crate::word_separators::find_words_ascii_space", "ascii-space-separator",
+     "the ASCII-space separator ends a word at every ' ', also at a space inside an OSC sequence (e.g. a window title)"),
+    ("crate::word_separators::find_words_unicode_break_properties", "unicode-separator",
+     "the Unicode separator computes break opportunities"),
+    ("crate::word_splitters::WordSplitter::split_points", "hyphen-splitter",
+     "the hyphen splitter puts a split point after every '-' between alphanumerics, also inside an escape sequence "
+     "(e.g. the URL of an OSC 8 hyperlink)"),
+    ("crate::core::Word::break_apart", "break-apart", "force-breaking cuts a word into pieces"),
+]
+SKIPPER = "crate::core::skip_ansi_escape_sequence"
+
+
+def _escape_aware(prog, rep):
+    """R5: the width of a paragraph that fits is the sum of the widths of its fragments only if no fragment boundary
+    falls inside an escape sequence (display_width is additive over pieces that each contain whole sequences, C10).
+    Every producer of boundaries must therefore scan with the escape skipper (directly or through a helper / closure)."""
+    def reaches(key):
+        # the producer itself or one of its closures calls the skipper (helper functions are inlined before analysis;
+        # measuring functions such as Word::from / display_width do not count: they measure, they do not scan for boundaries)
+        bodies = [prog.body(key)] + list(prog.closures_of(key).values() if isinstance(prog.closures_of(key), dict) else prog.closures_of(key))
+        work = [b for b in bodies if b is not None]
+        seen = set()
+        while work:
+            b = work.pop()
+            if b.key in seen:
+                continue
+            seen.add(b.key)
+            for _blk, _t, cal in b.calls():
+                if cal.name == SKIPPER:
+                    return True
+            cl = prog.closures_of(b.key)
+            work.extend(cl.values() if isinstance(cl, dict) else cl)
+        return False
+    n = 0
+    for key, role, what in BOUNDARY_PRODUCERS:
+        body = prog.body(key)
+        if body is None:
+            continue       # not compiled in this configuration
+        n += 1
+        r = Rule(rep, "C05.R5", key, site=body.span)
+        r.check(reaches(key), role, "%s: boundaries are computed by a scan that skips escape sequences" % role,
+                "reaches skip_ansi_escape_sequence in the call graph",
+                "%s without consulting skip_ansi_escape_sequence: a fragment boundary can fall inside an escape sequence; the "
+                "pieces then hold incomplete sequences, display_width is no longer additive over them, and a paragraph whose "
+                "display width fits can be wrapped into several lines" % what)
+    if n < 3:
+        rep.violation("C05.R5", "crate", "floor", "crate", "only %d boundary producers found (floor 3)" % n)
+
+
 def _fuzzing(prog, rep):
     pairs = {"crate::fuzzing::fill_slow_path": "crate::fill::fill_slow_path",
              "crate::fuzzing::wrap_single_line": "crate::wrap::wrap_single_line",
@@ -190,6 +243,7 @@ def run(prog, rep):
     lemmas.load_all()
     guarded(rep, "C05.R1", WSL, lambda: _wsl(prog, rep))
     guarded(rep, "C05.R1", FILL, lambda: _fill(prog, rep))
+    guarded(rep, "C05.R5", "crate", lambda: _escape_aware(prog, rep))
     if prog.config == "fuzzing":
         guarded(rep, "C05.R4", "crate::fuzzing", lambda: _fuzzing(prog, rep))
     # the general path must agree with the shortcut: it measures with the indent the line carries (C02), does not
